@@ -76,8 +76,12 @@ def gen_history(rng, nops):
                 ops.append("PB appxr %d" % rng.choice([-1, 0]))   # size = INT_MAX - bpos + delta (filled in by the model below)
             elif k < 0.85:
                 ops.append("PB set a %d 65 la %d" % (rng.choice([-2, -3, -2147483648]), rng.choice([0, 1, 5])))
-            else:
+            elif k < 0.93:
                 ops.append("PB set %s %d 65 la %d" % (rng.choice(["a", "b"]), rng.choice([1, 10, 100]), rng.choice([-1, -5, INT_MAX, -2147483648])))
+            else:
+                # offset beyond the contents and offset+len just inside INT_MAX: passes the argument check, must be refused when the buffer would have to grow
+                off = rng.choice([40, 100, 5000])
+                ops.append("PB set a %d 65 la %d" % (off, INT_MAX - off - rng.choice([0, 1, 3, 7])))
     if rng.random() < 0.35:
         # an allocation failure inside one operation (realloc in printbuf_extend, vasprintf in sprintbuf's long path): the operation
         # must fail with the buffer exactly as it was, still terminated
@@ -85,7 +89,7 @@ def gen_history(rng, nops):
         for o in ops:
             f = o.split()
             if len(f) > 2 and f[1] in ("app", "fmt", "set", "str", "fmtc") and not (f[1] == "app" and int(f[3]) > 4000000) and rng.random() < 0.15:
-                out += ["FAILNEXT 1", o, "FAILNEXT 0"]
+                out += ["FAILNEXT %d" % rng.choice([1, 1, 2]), o, "FAILNEXT 0"]   # (the second allocation of sprintbuf's long path is the buffer growth)
             else:
                 out.append(o)
         ops = out
@@ -125,7 +129,7 @@ def shard_fn(shard, nshards, seed, tier, exe, nhist):
         armed, pending, was_term = False, None, False
         for ci, (cmd, ln) in enumerate(zip(cmds, lines)):
             if cmd.startswith("FAILNEXT"):
-                if cmd.endswith(" 1"):
+                if not cmd.endswith(" 0"):
                     armed = True
                 else:
                     armed = False
@@ -182,6 +186,14 @@ def shard_fn(shard, nshards, seed, tier, exe, nhist):
                 if n < 0 or off < -1 or n > INT_MAX - o2:
                     want_ret = -1
                     sh.count("refused.memset")
+                elif o2 + n > INT_MAX - 64:
+                    # a fill ending within 64 bytes of INT_MAX: the terminator and any slack no longer fit in an int-sized buffer.  A refusal leaves everything as
+                    # it was (checked below); an implementation that really built a 2 GiB buffer cannot be modelled here
+                    if ret == 0:
+                        raise core.Inconclusive("a 2 GiB memset succeeded: %r -> %r" % (cmd, ln[:200]))
+                    want_ret = -1
+                    err = EFBIG   # (which errno is not asserted for this window)
+                    sh.count("refused.memset_near_INT_MAX")
                 elif n > (1 << 26) or o2 > (1 << 26):
                     raise core.Inconclusive("generator produced a huge-but-allocatable memset: %r -> %r" % (cmd, ln[:200]))
                 else:
